@@ -512,3 +512,96 @@ def gen_dyndep_invalid(rnd, sid):
     h.dd_bound = bound
     h.build(rnd, [rnd.choice(bound)], j=rnd.choice([1, 3]), k=1, sched=rand_sched(rnd, 2 * len(g.edges) + 2))
     return h
+
+# ------------------------------------------------------------------ C07: crashes and interrupts
+def gen_crash_base(rnd, sid):
+    """(history prefix, the build step to be crashed) : first build ok, a change, then the build that will die"""
+    feat = dict(deps=0.5, restat=0.3, rsp=0.3, phony=0.1, validations=0.1, pools=0.1, generator=0.05, multiout=0.4)
+    g = engine.gen_graph(rnd, rnd.randrange(1, 5), feat)
+    h = Hist(sid, g)
+    if rnd.random() < 0.8:
+        h.build(rnd, None, j=rnd.choice([1, 2]), k=1, sched=rand_sched(rnd, 12))
+        ne = [e for e in g.edges if not e.phony]
+        r = rnd.random()
+        if r < 0.5 or not ne:
+            sname = rnd.choice(sorted(h.sources)); h.edit(sname, 'crash.%d' % rnd.randrange(100000))
+        elif r < 0.75:
+            e = rnd.choice(ne); e.ver += 1; h.rewrite_manifest()
+        else:
+            e = rnd.choice(ne); o = rnd.choice(e.outs); h.add(Step('rm', 'step rm %s' % hx(o), path=o))
+    return h
+
+def crash_variants(rnd, base, npoints, tears=True):
+    """one scenario per crash point (plus torn-write variants), each followed by a recovery build and a repeat"""
+    res = []
+    j = rnd.choice([1, 2, 3]); sched = rand_sched(rnd, 12)
+    ks = [(k, 0) for k in range(npoints)]
+    if tears: ks += [(k, t) for k in range(npoints) for t in (1, 7)] 
+    for k, t in ks:
+        h = Hist('%s_k%d_t%d' % (base.sid, k, t), copy.deepcopy(base.g0))
+        h.g = copy.deepcopy(base.g); h.sources = dict(base.sources); h.steps = list(base.steps)
+        h.header = base.header[:]; h.header[0] = 'scenario %s' % h.sid
+        h.crash_step = len(h.steps)
+        h.build(rnd, None, j=j, k=1, sched=sched, crash=k, tear=(t or None))
+        st = h.build(rnd, None, j=1, k=1, sched=sched)
+        h.add(Step('build', st.line, g=st.g, sources=st.sources, targets=st.targets, opts=st.opts, repeat=True))
+        res.append(h)
+    return res
+
+def count_crash_points(bases, rnd):
+    """run each base with an unreachable crash point to learn how many persistence points its build has"""
+    probes = []
+    for b in bases:
+        h = Hist(b.sid + '_probe', copy.deepcopy(b.g0))
+        h.g = copy.deepcopy(b.g); h.sources = dict(b.sources); h.steps = list(b.steps); h.header = b.header[:]; h.header[0] = 'scenario %s' % h.sid
+        h.build(rnd, None, j=1, k=1, sched=[0] * 12, crash=10000000)
+        probes.append(h)
+    rc, tr, err, out = run_hists(probes)
+    n = {}
+    cur = None
+    for l in out:
+        w = l.split()
+        if w and w[0] == 'scenario': cur = w[1]
+        if l.startswith('ev crash-not-reached points='): n[cur] = int(l.split('=')[1])
+    return [n.get(p.sid, 0) for p in probes]
+
+def gen_interrupt_history(rnd, sid):
+    feat = dict(deps=0.5, restat=0.3, rsp=0.2, phony=0.1, pools=0.2, multiout=0.4, generator=0.0)
+    g = engine.gen_graph(rnd, rnd.randrange(2, 7), feat)
+    h = Hist(sid, g)
+    if rnd.random() < 0.7:
+        h.build(rnd, None, j=rnd.choice([1, 3]), k=1, sched=rand_sched(rnd, 16))
+        sname = rnd.choice(sorted(h.sources)); h.edit(sname, 'int.%d' % rnd.randrange(100000))
+        if rnd.random() < 0.3:
+            ne = [e for e in g.edges if not e.phony]
+            if ne: e = rnd.choice(ne); e.ver += 1; h.rewrite_manifest()
+    ne = [e.out0 for e in g.edges if not e.phony]
+    part = rnd.sample(ne, rnd.randrange(0, len(ne) + 1)) if ne else []
+    st = h.build(rnd, None, j=rnd.choice([1, 2, 4]), k=1, sched=rand_sched(rnd, 16), interrupt=rnd.randrange(0, 5), partial=part or None)
+    st.interrupted = True; st.partial = part
+    st2 = h.build(rnd, None, j=1, k=1, sched=rand_sched(rnd, 16))
+    h.add(Step('build', st2.line, g=st2.g, sources=st2.sources, targets=st2.targets, opts=st2.opts, repeat=True))
+    return h
+
+def oracle_interrupt(h, st, b, prev_b):
+    """after an interrupt: status 130, lock gone, modified outputs (always: outputs of depfile commands) of the commands that were running are gone"""
+    if not any(ev[0] == 'interrupt' for ev in b.events): return None
+    g = st.g; prod = g.producer(); bad = []
+    if b.exit != 130: bad.append('exit status %s after an interrupt (expected 130)' % b.exit)
+    if '.ninja_lock' in b.files: bad.append('.ninja_lock still exists after the interrupt')
+    running = []
+    for ev in b.events:
+        if ev[0] == 'ps':
+            kv = dict(x.split('=', 1) for x in ev[1:]); running = [] if kv['running'] == '-' else [engine.uh(x) for x in kv['running'].split(',')]
+        if ev[0] == 'start': running = running + [ev[1]]
+        if ev[0] == 'finish': running = [r for r in running if r != ev[1]]
+        if ev[0] == 'interrupt': break
+    for o0 in running:
+        e = prod.get(o0)
+        if e is None: continue
+        for o in g.eff_outs(e):
+            if e.depfile and o in b.files: bad.append('output %s of the interrupted depfile command %s was not removed' % (o, o0))
+            elif o0 in getattr(st, 'partial', []) and o in b.files and b.files[o][1] == 'PARTIAL':
+                bad.append('output %s, modified by the interrupted command %s, was not removed' % (o, o0))
+        if e.depfile and e.depfile in b.files: bad.append('depfile %s of the interrupted command was not removed' % e.depfile)
+    return bad or None
